@@ -426,6 +426,12 @@ struct C02 {
             c.impl.api->gen_run(c.impl.m, 0x0000, 1, 0, nullptr, nullptr, &warm);
         }
         c.impl.api->gen_run(c.impl.m, o, 1, 0, nullptr, nullptr, &g);
+        // (a two-word form may be generated with a zero operand word; the converse - an operand word for a one-word form - is the disagreement)
+        if (g.enabled && g.gen_expand_kind != 0 && !need_rec) {
+            Fail(Fmt("length:generator-config:%s", di.name), Fmt("opcode %04X: the test generator emits a non-zero second program word for it (after generating for other words), but it is a "
+                                                              "one-word instruction for the decoder, the disassembler and the interpreter", o), rp);
+            return;
+        }
         if (g.need_expansion != (int)need_rec) {
             Fail(Fmt("length:generator:%s", di.name), Fmt("opcode %04X: test generator sees %d second word(s), decoder %d", o, g.need_expansion, need_rec), rp);
             return;
